@@ -232,6 +232,10 @@ var _ = shared.NewCounter
 //@ func (*Interpreter).ServeHTTP [C18]
 //@   requires i != nil && !i.lock.g_held
 //@   callassert [request-state-built-under-the-lock C18] ProcessInit: i.lock.g_held
+//@   callassert [request-processed-under-the-lock C18] ProcessRecv: i.lock.g_held
+//@   callassert [response-written-under-the-lock C18] sendPurgeRequestResponse: i.lock.g_held
+//@   callassert [response-written-under-the-lock C18] sendResponse: i.lock.g_held
+//@   callassert [response-written-under-the-lock C18] sendProcessResponse: i.lock.g_held
 //@   mustcall [lock-taken-before-processing C18] Lock when called("ProcessInit")
 //@   mustcall [lock-released-on-every-path C18] Unlock when called("ProcessInit")
 
